@@ -132,6 +132,42 @@ def gen_cases(rng, n):
             kind = "statement" if "_type" in base else "predicate"
             d, how = attgen.mutate(rng, base)
             add(kind, d, cls="mutated:" + how)
+    # the free-form members of the provenance predicates (arguments, parameters, environment, buildConfig) holding JSON of any
+    # shape instead of text: rejected - or accepted, and then with a canonical form that reads back, like any accepted document
+    FREE = [{"timeout": 1.5}, [1e3], 0.25, {"a": {"b": [1, 2.5]}}, True, 7, {"x": "y"}, None, [], {}, "text", -0.0, 1e300, {"n": 12345678901234567890}]
+    for i in range(max(8, n // 10)):
+        t, pdoc = attgen.gen_predicate(rng, True)
+        if rng.random() < 0.5:
+            doc, _ = attgen.gen_v01(rng, True)
+            if not isinstance(doc.get("predicate"), dict):
+                continue
+            target, kind = doc["predicate"], "statement"
+        else:
+            doc = target = pdoc
+            kind = "predicate"
+        spots = []
+
+        def walk(o):
+            if isinstance(o, dict):
+                for k in o:
+                    if k in ("arguments", "parameters", "environment", "buildConfig") and not isinstance(o[k], dict) or k in ("parameters", "buildConfig"):
+                        spots.append((o, k))
+                    walk(o[k])
+            elif isinstance(o, list):
+                for x in o:
+                    walk(x)
+        walk(target)
+        if isinstance(target.get("recipe"), dict):
+            spots += [(target["recipe"], k) for k in ("arguments", "environment")]
+        if isinstance(target.get("invocation"), dict):
+            spots += [(target["invocation"], k) for k in ("parameters", "environment")]
+        if "builder" in target and "buildType" in target:
+            spots.append((target, "buildConfig"))
+        if not spots:
+            continue
+        o, k = rng.choice(spots)
+        o[k] = copy.deepcopy(rng.choice(FREE))
+        add(kind, doc, cls="free_form_member_holds_json")
     return cases
 
 
